@@ -599,10 +599,33 @@ fn gen_expr(r: &mut Rng, base: &J) -> (Vec<u8>, &'static str) {
             let e = ExprGen::new(r, &none).for_doc(base, d);
             (format!("\n  {}\n\t", e.replace(" | ", "\n|\n")).into_bytes(), "multiline")
         }
-        17 => (
-            (*r.pick(&["&a", "[&a, `1`]", "{x: &@}", "to_string(&a)", "type(&a)"])).as_bytes().to_vec(),
-            "expref_result",
-        ),
+        17 => {
+            if r.chance(1, 2) {
+                ((*r.pick(&["&a", "[&a, `1`]", "{x: &@}", "to_string(&a)", "type(&a)"])).as_bytes().to_vec(), "expref_result")
+            } else {
+                // white space that is DATA: inside raw strings, quoted identifiers and literals
+                // (CR LF, lone CR, tabs, leading / trailing / doubled blanks, NBSP, BOM)
+                let e = *r.pick(&[
+                    "'a\r\nb'",
+                    "u == 'l1\r\nl2'",
+                    "'\r'",
+                    "' x '",
+                    "'tab\there'",
+                    "'two  spaces'",
+                    "'a\nb'",
+                    "\"a b\"",
+                    "`\"x  y\"`",
+                    "'\u{a0}nbsp'",
+                    "'\u{feff}bom'",
+                    "'end\r\n'",
+                    "join('\r\n', xs[*].s)",
+                    "[u, 'a\r\nb'] | [0] == [1]",
+                    "'trailing '",
+                    "'\t'",
+                ]);
+                (e.as_bytes().to_vec(), "whitespace_in_literal")
+            }
+        }
         18 => (
             (*r.pick(&["@", "", " ", "a", "*", "[]", "[*]", "`null`", "!@", "@ | @"])).as_bytes().to_vec(),
             "tiny",
@@ -689,7 +712,7 @@ fn gen_case(seed: u64) -> Case {
             ("a b".into(), J::Str("sp".into())),
             ("big".into(), J::UInt(u64::MAX)),
             ("f".into(), J::Float(*r.pick(&[0.1, 1.0, -2.5, 1e21, 1e-7, 123456789.125]))),
-            ("u".into(), J::Str((*r.pick(&["\u{e4}", "\u{1F600}", "a\"b", "tab\there", "\u{7f}", "\\"])).to_string())),
+            ("u".into(), J::Str((*r.pick(&["\u{e4}", "\u{1F600}", "a\"b", "tab\there", "\u{7f}", "\\", "l1\r\nl2", "a\r\nb", " x ", "\u{85}\u{9f}", "line\nfeed"])).to_string())),
         ])
     } else {
         J::gen_doc(&mut r)
